@@ -235,6 +235,9 @@ void DOMAttrImpl::release()
     DOMDocumentImpl* doc = (DOMDocumentImpl*)fParent.fOwnerDocument;
     if (doc) {
         fNode.callUserDataHandlers(DOMUserDataHandler::NODE_DELETED, 0, 0);
+        // an ID attribute must leave the document's ID map before its storage is recycled
+        // (done while the value is still there: the map entry is found through it)
+        removeAttrFromIDNodeMap();
         fParent.release();
         doc->release(this, DOMMemoryManager::ATTR_OBJECT);
     }
